@@ -28,6 +28,8 @@ const (
 type Sub struct {
 	Active bool
 	Trace  []string
+	// Auto: the subscriber unsubscribes itself inside the first callback it gets.
+	Auto bool
 }
 
 // State of a subject. Values are ints rendered as strings; terminal "C" / "E".
@@ -56,7 +58,7 @@ func (s *State) Clone() *State {
 	c.Mem = append([]int(nil), s.Mem...)
 	c.Subs = map[int]*Sub{}
 	for k, v := range s.Subs {
-		c.Subs[k] = &Sub{Active: v.Active, Trace: append([]string(nil), v.Trace...)}
+		c.Subs[k] = &Sub{Active: v.Active, Auto: v.Auto, Trace: append([]string(nil), v.Trace...)}
 	}
 	return &c
 }
@@ -70,7 +72,7 @@ func (s *State) Key() string {
 	}
 	sort.Ints(ids)
 	for _, id := range ids {
-		fmt.Fprintf(&b, "%d:%v:%s;", id, s.Subs[id].Active, strings.Join(s.Subs[id].Trace, ","))
+		fmt.Fprintf(&b, "%d:%v%v:%s;", id, s.Subs[id].Active, s.Subs[id].Auto, strings.Join(s.Subs[id].Trace, ","))
 	}
 	return b.String()
 }
@@ -86,7 +88,16 @@ func (s *State) active() []int {
 	return ids
 }
 
-func (s *State) deliver(id int, what string) { s.Subs[id].Trace = append(s.Subs[id].Trace, what) }
+func (s *State) deliver(id int, what string) {
+	sub := s.Subs[id]
+	if !sub.Active {
+		return
+	}
+	sub.Trace = append(sub.Trace, what)
+	if sub.Auto {
+		sub.Active = false // it unsubscribed itself inside that callback
+	}
+}
 
 func (s *State) terminate(what string) {
 	for _, id := range s.active() {
@@ -200,6 +211,20 @@ func (s *State) Subscribe(id int) {
 		return
 	}
 	sub.Active = true
+}
+
+// SubscribeAuto attaches a subscriber that unsubscribes itself inside the first callback it gets:
+// of whatever the subscription replays it keeps the first notification only (the rest of a replay
+// is dropped by the closed subscriber - a unicast backlog is consumed all the same), and it is not
+// an observer of the subject afterwards.
+func (s *State) SubscribeAuto(id int) {
+	s.Subscribe(id)
+	sub := s.Subs[id]
+	sub.Auto = true
+	if len(sub.Trace) > 0 {
+		sub.Trace = sub.Trace[:1]
+		sub.Active = false
+	}
 }
 
 func (s *State) Unsubscribe(id int) {
